@@ -222,7 +222,9 @@ func c06GenFrag(r *Rng) c06Frag {
 	case 4:
 		return c06Frag{"linecomment", "{#" + c06LineComment(r) + "#}", "", true}
 	case 5:
-		return c06Frag{"commenttag", "{% comment %}" + c06CommentTagBody(r) + "{% endcomment %}", "", true}
+		// (the end tag may carry arguments - nobody reads them - also strings that spell a delimiter)
+		endArgs := r.Pick([]string{"", "", "", " x", " \"%}\"", " \"}}\" y", " \"a b\" 1", " \"{%\"", " '%}'", " -"})
+		return c06Frag{"commenttag", "{% comment %}" + c06CommentTagBody(r) + "{% endcomment" + endArgs + " %}", "", true}
 	case 6:
 		name := c06TemplateTagNames[r.Intn(8)]
 		return c06Frag{"templatetag", "{% templatetag " + name + " %}", c06TemplateTags[name], true}
@@ -234,6 +236,34 @@ func c06GenFrag(r *Rng) c06Frag {
 			"{% with x=n %}[{{ x }}]{% endwith %}", "{% spaceless %}<a> <b>{% endspaceless %}", "{% filter upper %}abc{% endfilter %}"}
 		return c06Frag{"tagblock", bs[r.Intn(len(bs))], "", false}
 	}
+}
+
+// c06HugeFile: a delimiter-free file of 16, 32 or 48 MiB (and a few bytes) renders to itself - as the template itself and
+// included - and nothing is cut off silently (one such case per quick run, three per thorough run).
+func c06HugeFile(c *C) {
+	nb := c06EnumBatches(c.Tier)
+	size := []int{48<<20 + 5, 32<<20 + 28, 16<<20 + 1}[(c.Idx-nb-1)%3] // the quick tier renders the largest one
+	unit := "line of literal text, no delimiters: } % # { - \n"
+	big := strings.Repeat(unit, size/len(unit)+1)[:size-3] + "END"
+	set, _ := newSet(map[string]string{"/huge.txt": big, "/inc.tpl": `{% include "/huge.txt" %}`})
+	for _, name := range []string{"/huge.txt", "/inc.tpl"} {
+		tpl, err := set.FromFile(name)
+		var out string
+		if err == nil {
+			out, err = tpl.Execute(nil)
+		}
+		c.Eval(1)
+		if err != nil || out != big {
+			first := 0
+			for first < len(out) && first < len(big) && out[first] == big[first] {
+				first++
+			}
+			c.Fail("identity-via-route", D{"route": name, "file_bytes": len(big), "output_bytes": len(out), "first_difference_at": first, "error": errStr(err)})
+			return
+		}
+	}
+	c.Cover(fmt.Sprintf("huge_file_%d_MiB", size>>20))
+	c.Nontrivial(fmt.Sprintf("huge:%d", size))
 }
 
 // c06ParkWriter: the caller's writer; its k-th Write waits (after having taken a copy of the bytes it was given at the
@@ -324,6 +354,10 @@ func c06Run(c *C) {
 	}
 	if (c.Idx-nb)%50 == 17 {
 		c06SlowWriter(c)
+		return
+	}
+	if c.Idx == nb+1 || (c.Thorough() && (c.Idx == nb+2 || c.Idx == nb+3)) {
+		c06HugeFile(c)
 		return
 	}
 	r := c.R
